@@ -176,8 +176,8 @@ def prop_helpers(case):
     G.graph['name'] = 'caller graph'
     xi = dict(zip(nodes, case['xi'])); zeta = dict(zip(nodes, case['zeta']))
     rule = c17.transmission_rule(case['rule'])
-    dur = {u: float('inf') if d == 'inf' else d for u, d in zip(nodes, case['dur'])}
-    delay = {p: float('inf') if d == 'inf' else d for p, d in zip(pairs, case['delay'])}
+    dur = {u: c17._num(d) for u, d in zip(nodes, case['dur'])}
+    delay = {p: c17._num(d) for p, d in zip(pairs, case['delay'])}
     I0 = [nodes[0]]
     R0 = [nodes[-1]] if len(nodes) > 2 else []
     H = nx.DiGraph()
